@@ -282,6 +282,12 @@ func (p *contentProvider) calculateTermFrequency(cands []*candidateMatch, lowPri
 	return termFreqs
 }
 
+// maxBoostWeight is the largest weight a match can receive from query.Boost. It is far
+// beyond any meaningful boost, and small enough that scores stay finite: an infinite (or
+// overflowing) weight makes line and file scores +Inf and, multiplied with a zero BM25
+// score, NaN, which breaks the ordering of the results.
+const maxBoostWeight = 1e100
+
 // boostScore finds whether any of the matches are part of a boosted match tree, then applies
 // the boost to the final score. This follows precedent in other search engines like Lucene, where
 // boosts multiply an entire query clause's final score.
